@@ -13,7 +13,7 @@ import (
 )
 
 var ghostBuiltins = map[string]bool{
-	"requires": true, "ensures": true, "ensuresGoal": true, "assert": true, "assume": true, "imp": true, "iff": true, "old": true,
+	"requires": true, "ensures": true, "ensuresGoal": true, "ensuresTrusted": true, "assert": true, "assume": true, "imp": true, "iff": true, "old": true,
 	"forall": true, "exists": true, "forallIn": true, "existsIn": true, "forallStr": true, "modifiesTail": true, "modifiesElems": true, "modifiesPtr": true, "modifiesAll": true, "modifiesMap": true,
 	"freshSlice": true, "sameBase": true, "sameArray": true, "suffixOf": true, "viewOf": true, "offsetIn": true, "disjointFromTail": true, "bytesEq": true, "strBytesEq": true, "allocated": true, "sameOrDisjoint": true, "unchangedElems": true,
 	"covers": true,
@@ -1237,7 +1237,7 @@ func (c *VC) specUF(st *State, fi *FuncInfo, args []*Term) []*Term {
 	// fuel-1 unfolding: every application that occurs syntactically in the VC is given its
 	// definition once; applications produced by that unfolding are left folded. No quantified
 	// axioms, hence no matching loops.
-	if c.unfoldDepth == 0 && !c.isAbstract(fi) && !c.noName && fi.Decl.Body != nil {
+	if c.unfoldDepth == 0 && !c.isAbstract(fi) && !fi.Dir.Uninterp && !c.noName && fi.Decl.Body != nil {
 		key := r.String()
 		if strings.Contains(key, "?") {
 			return []*Term{r}
